@@ -1006,6 +1006,7 @@ class StoreRun:
                             self._retag(t2, "C15")
                             droot.children[cname] = ("h", t2)
                     droot.coll = cp.coll
+                    droot.dirty = cp.dirty      # left-overs of a failed creation are copied along
                     droot.attrs.update(cp.attrs)
                     droot.prop = "C15"
                     droot.verified = False
